@@ -34,6 +34,9 @@ type PoissonDistribution struct {
 /* -------------------------------------------------------------------------- */
 
 func NewPoissonDistribution(lambda Scalar) (*PoissonDistribution, error) {
+  if math.IsNaN(lambda.GetFloat64()) {
+    return nil, fmt.Errorf("invalid parameters")
+  }
 
   if lambda.GetFloat64() <= 0.0 {
     return nil, fmt.Errorf("invalid parameter")
